@@ -120,6 +120,20 @@ func TestStandinPrintForms(t *testing.T) {
 			}
 		}
 	}
+	// the edges of the civil range (civil years 1 and 9998 reach lunar years 0 and 9998): every civil day, through the civil side
+	for _, cy := range []int{1, 9998} {
+		seen := map[string]string{}
+		for sd := NewSolarFromYmd(cy, 1, 1); sd.GetYear() == cy; sd = sd.NextDay(1) {
+			l := sd.GetLunar()
+			s := l.String()
+			py, pm, pd, ok := pfParse(s)
+			expect(ok && py == l.GetYear() && pm == l.GetMonth() && pd == l.GetDay(), "Lunar of %s (%d/%d/%d) prints %q which parses back to %d/%d/%d", sd.ToYmd(), l.GetYear(), l.GetMonth(), l.GetDay(), s, py, pm, pd)
+			if prev, dup := seen[s]; dup {
+				expect(false, "civil days %s and %s both print %q", prev, sd.ToYmd(), s)
+			}
+			seen[s] = sd.ToYmd()
+		}
+	}
 	// civil timestamps: fixed width, parse back, lexicographic order = chronological order
 	seed, _ := strconv.ParseInt(os.Getenv("VERIF_SEED"), 10, 64)
 	rng := rand.New(rand.NewSource(seed + 5))
